@@ -63,9 +63,6 @@ func runNoroute(raw json.RawMessage) (interface{}, error) {
 	defer norouteMu.Unlock()
 	e := getEnv()
 	routes := "route add svc routed.example/routed http://" + upstreamName + "/"
-	if err := e.install(config.Proxy{NoRouteStatus: in.Status}, routes, nil); err != nil {
-		return nil, err
-	}
 	for _, pv := range in.Prev {
 		b, err := fromL1(pv)
 		if err != nil || len(b) > 4096 {
@@ -79,11 +76,10 @@ func runNoroute(raw json.RawMessage) (interface{}, error) {
 		host, path = "routed.example", "/routed"+path
 	}
 	req := fmt.Sprintf("%s %s HTTP/1.1\r\nHost: %s\r\n\r\n", in.Method, path, host)
-	resp, err := e.roundTrip(in.Method, []byte(req), true)
+	resp, hits, _, _, err := e.exchange(config.Proxy{NoRouteStatus: in.Status}, pcfg{}, routes, nil, nil, in.Method, []byte(req), true)
 	if err != nil {
 		return nil, err
 	}
-	hits, _ := e.seen()
 	return norouteOut{Status: resp.Status, Interim: resp.Interim, Body: resp.Body, Hits: hits}, nil
 }
 
